@@ -282,8 +282,12 @@ def finish(prop, P, tier, seed, t0, results, fatal, touched, findings):
     for e in violations:
         tail = "" if e["has_input"] else " no-failing-input-found"
         print(f"VIOLATION property={prop} replay={e['replay']} obligation={e['clause']} ({e['backend']}: {e['detail'][:160]}){tail}")
+    said = set()
     for r in undecided:
-        print(f"UNDECIDED property={prop} obligation={r['obligation']} status={r['status']} {(r.get('detail') or '')[:200]}")
+        line = f"UNDECIDED property={prop} obligation={r['obligation']} status={r['status']} {(r.get('detail') or '')[:200]}"
+        if line not in said:
+            print(line)
+            said.add(line)
     if fatal:
         print(f"UNDECIDED property={prop} {fatal[:400]}")
     print(f"[check] {prop} tier={tier}: deductive {n_ded_ok}/{n_ded} discharged, bounded {sum(1 for r in bounded if r['status']=='success')}/{len(bounded)} passed "
